@@ -25,7 +25,7 @@ INTERPOLATORS = ["lsq_poly", "spline", "lagrange", "krogh", "pchip", "hermite", 
 # ----------------------------------------------------------------------------------------------------
 # Hypothesis strategy for the structure; large numeric payloads come from a drawn seed
 @st.composite
-def dataset_specs(draw, systems=None, max_nq=4, max_na=3, families=("power", "poly2", "poly3"),
+def dataset_specs(draw, systems=None, max_nq=4, max_na=3, families=("power", "poly2", "poly3", "generic"),
                   lattice=None, interpolators=("lsq_poly",), max_nt=5, keys_mode="auto", min_nv=5, max_nv=9,
                   t_min_zero=None, dt_range=(5.0, 400.0), ntv_range=(16, 41)):
     nv = draw(st.integers(min_nv, max_nv))
